@@ -1,16 +1,16 @@
 SPECIFICATION MCSpec
 CONSTANTS Classes = {1, 2, 3}
-  Codes = {0, 1, 2, 3}
+  Codes = {1, 3}
   SortedHash = TRUE
-  Full = FALSE
-  InitSizes = {4}
+  Full = TRUE
+  InitSizes = {2}
   Ptrs = {1}
   Vals = {1}
   SetVals <- NoSet
   OutModes <- OutOnly
   MaxSteps = 0
   GenDepth = 0
-  FlagScripts <- FSLayout
+  FlagScripts <- FSSmall
   DestructorModes <- OnlyDestructors
 VIEW RealState
 CONSTRAINT Bound
